@@ -411,12 +411,17 @@ class ConfigParser(object):
     self._default_range_start = MultiRangeDefinitionTuple(u">", 0.0)
 
   def _set_value(self, cp, override):
+    # configparser checks the place-holder syntax of a value when it is set and raises ValueError for
+    # text such as 'as.buck ${A 2 3'. A file may contain that text: it is reported (as a configuration
+    # error) when, and if, the entry is used. Store the value the way reading a file does.
+    value = override.value.strip()
     try:
-      cp[override.section][override.key] = override.value.strip()
+      cp[override.section][override.key] = value
     except ValueError as e:
-      # configparser checks the place-holder syntax of a value when it is set
-      raise ConfigOverrideException("Entry [{section}]: '{key}' cannot be given the value '{value}': {msg}".format(
-        section = override.section, key = override.key, value = override.value, msg = e))
+      if "\n" in value:
+        raise ConfigOverrideException("Entry [{section}]: '{key}' cannot be given the value '{value}': {msg}".format(
+          section = override.section, key = override.key, value = override.value, msg = e))
+      cp.read_string(u"[{section}]\n{key} : {value}\n".format(section = override.section, key = override.key, value = value))
 
   def _init_config_parser(self, fp, overrides, additional):
     cp = _RawConfigParser()
